@@ -262,12 +262,15 @@ class MailboxData(MailboxDataInterface[Message]):
         maildir = self._maildir
         email_id = ObjectId.random_email_id()
         thread_id = ObjectId.random_thread_id()
-        async with self.messages_lock.write_lock():
-            maildir_msg = Message.to_maildir(append_msg, recent,
-                                             self.maildir_flags)
-            key = maildir.add(maildir_msg)
-            filename = key + ':' + maildir_msg.get_info()
+        # the UID list stays locked from before the file appears until its
+        # record is written: another session that scans the folder meanwhile
+        # would adopt the file under a second UID
         async with UidList.with_write(self._path) as uidl:
+            async with self.messages_lock.write_lock():
+                maildir_msg = Message.to_maildir(append_msg, recent,
+                                                 self.maildir_flags)
+                key = maildir.add(maildir_msg)
+                filename = key + ':' + maildir_msg.get_info()
             fields = {'E': str(email_id), 'T': str(thread_id)}
             new_rec = Record(uidl.next_uid, fields, filename)
             uidl.next_uid += 1
@@ -288,10 +291,10 @@ class MailboxData(MailboxDataInterface[Message]):
             return None
         copy_msg = MaildirMessage(maildir_msg)
         copy_msg.set_subdir('new' if recent else 'cur')
-        async with destination.messages_lock.write_lock():
-            dest_key = dest_maildir.add(copy_msg)
-            dest_filename = dest_key + ':' + copy_msg.get_info()
         async with UidList.with_write(destination._path) as uidl:
+            async with destination.messages_lock.write_lock():
+                dest_key = dest_maildir.add(copy_msg)
+                dest_filename = dest_key + ':' + copy_msg.get_info()
             new_rec = Record(uidl.next_uid, record.fields, dest_filename)
             uidl.next_uid += 1
             uidl.set(new_rec)
@@ -307,19 +310,20 @@ class MailboxData(MailboxDataInterface[Message]):
             except KeyError:
                 return None
         dest_subdir = 'new' if recent else 'cur'
-        async with AsyncExitStack() as stack:
-            await stack.enter_async_context(self.messages_lock.write_lock())
-            if destination is not self:
-                # the lock is not re-entrant: moving into the same mailbox
-                # must not take it twice
-                await stack.enter_async_context(
-                    destination.messages_lock.write_lock())
-            try:
-                new_filename = maildir.move_message(
-                    rec.key, dest_maildir, dest_subdir)
-            except (KeyError, FileNotFoundError):
-                return None
         async with UidList.with_write(destination._path) as uidl:
+            async with AsyncExitStack() as stack:
+                await stack.enter_async_context(
+                    self.messages_lock.write_lock())
+                if destination is not self:
+                    # the lock is not re-entrant: moving into the same
+                    # mailbox must not take it twice
+                    await stack.enter_async_context(
+                        destination.messages_lock.write_lock())
+                try:
+                    new_filename = maildir.move_message(
+                        rec.key, dest_maildir, dest_subdir)
+                except (KeyError, FileNotFoundError):
+                    return None
             if destination is self:
                 # same file, same key: the old record would keep denoting it
                 uidl.remove(uid)
